@@ -211,6 +211,13 @@ class U:
             if u.relax_eliminates:
                 em = u.mem(elim)
                 u.h.assume(u.disjoint(u.tl_vars(r), em), "P-relax.eliminates")
+            if simplify is False:
+                # P-relax.identity: nothing to eliminate and no simplification asked for - the same constraints come back
+                # (polyhedral proof: C15.elim_vars_by_relaxing.nothing_to_eliminate_* in s_tactics)
+                em = u.mem(elim)
+                nothing = u.forall_v(lambda v: z3.Not(_b(em(v))))
+                rm, sm = u.mem(u.terms_of(r)), u.mem(u.terms_of(s))
+                u.h.assume(z3.Implies(nothing, u.forall_t(lambda t: _b(rm(t)) == _b(sm(t)))), "P-relax.identity")
             return (r, Opaque("stats"))
 
         def simplify(I, a, k):
